@@ -4,10 +4,10 @@
 package chainsim
 
 import (
-	"path/filepath"
-	"os"
 	"fmt"
 	"math/big"
+	"os"
+	"path/filepath"
 	"sort"
 
 	cfg "github.com/lianxiangcloud/linkchain/config"
@@ -37,8 +37,14 @@ var (
 	CodeReverter = common.FromHex("60006000fd")
 	// CALL(gas, to=calldata[0:32], value=callvalue) ; STOP   — forwards the value it receives
 	CodeForwarder = common.FromHex("6000600060006000346000355af100")
-	// SELFDESTRUCT(calldata[0:32])
-	CodeSuicider = common.FromHex("600035ff")
+	// called with arguments: SELFDESTRUCT(calldata[0:32]); called without (a plain payment, a forwarder's inner call): STOP, the value stays
+	//   CALLDATASIZE ISZERO PUSH1 9 JUMPI PUSH1 0 CALLDATALOAD SELFDESTRUCT JUMPDEST STOP
+	CodeSuicider = common.FromHex("3615600957600035ff5b00")
+	// SSTORE(key=calldata[0:32], value=calldata[32:64]) ; STOP   - contract storage: written, overwritten, cleared (value 0)
+	CodeStore = common.FromHex("6020356000355500")
+	// CALL(gas, to=calldata[0:32], value=callvalue, args=calldata[32:64]) then REVERT: whatever the callee did - a self-destruct included - is undone
+	//   CALLDATASIZE 0 0 CALLDATACOPY ; 0 0 0x20 0x20 CALLVALUE MLOAD(0) GAS CALL ; POP 0 0 REVERT
+	CodeCallArgThenRevert = common.FromHex("366000600037" + "6000600060206020346000515af1" + "5060006000fd")
 	// ISSUE(calldata[0:32]) ; TRANSFERTOKEN(to=caller, token=address(this), amount=calldata[0:32]) ; STOP
 	CodeIssuer = common.FromHex("600035e033306000" + "35e300")
 	// CALL(gas, to=calldata[0:32], value=callvalue) then REVERT — inner transfer must be undone
@@ -90,16 +96,23 @@ type Sim struct {
 	Outs      map[common.Address][]OutRef // by token, index == global index
 	KeyImages map[lktypes.Key]int         // committed key image -> count
 
-	InitialNative *big.Int
-	InitialToken  map[common.Address]*big.Int
-	WasmAddr      common.Address            // the WASM contract of Options.Wasm
-	WasmCodes     map[string][]byte         // test contracts of the repository (vm/wasm/wasm-run)
-	Upgrader      world.Acct                // the registered upgrade signer
-	forceCreate   map[common.Address][]byte   // the account's next transaction is the creation whose address was just pre-funded
-	CandKeys      []crypto.PubKey             // elected candidates of the genesis (Options.Candidates), then one stranger
-	Issued        map[common.Address]*big.Int // by design: ISSUE
-	Destroyed     map[common.Address]*big.Int // by design: self-destruct to self (native + tokens)
-	Log           []string
+	InitialNative  *big.Int
+	InitialToken   map[common.Address]*big.Int
+	WasmAddr       common.Address              // the WASM contract of Options.Wasm
+	WasmCodes      map[string][]byte           // test contracts of the repository (vm/wasm/wasm-run)
+	Upgrader       world.Acct                  // the registered upgrade signer
+	forceCreate    map[common.Address][]byte   // the account's next transaction is the creation whose address was just pre-funded
+	forcePay       bool                        // the next account transaction (probably) pays the self-destructing contract: it follows an undone self-destruct
+	blkPaid        bool                        // generated since the last commit: a payment to the self-destructing contract ...
+	blkFwdPaid     bool                        // ... through a forwarder (whether the inner call succeeded the books cannot know) ...
+	blkKill        bool                        // ... a self-destruct ...
+	blkSelfKill    bool                        // ... in its own favour (the books know the destroyed amount only if payment and self-destruct do not share a block)
+	UnderpayRate   int                         // > 0: one confidential spend in UnderpayRate pays LESS than the required fee (it must never be offered to a proposer)
+	BurntAfterKill []string                    // payments that reached the contract after it had self-destructed earlier in the SAME block (they are destroyed; counted in Destroyed)
+	CandKeys       []crypto.PubKey             // elected candidates of the genesis (Options.Candidates), then one stranger
+	Issued         map[common.Address]*big.Int // by design: ISSUE
+	Destroyed      map[common.Address]*big.Int // by design: self-destruct to self (native + tokens)
+	Log            []string
 }
 
 func addrOf(s string) common.Address { return common.BytesToAddress(crypto.Keccak256([]byte(s))[12:]) }
@@ -167,13 +180,13 @@ func New(t *rapid.T, o Options) *Sim {
 		s.Universe[a.Addr] = struct{}{}
 	}
 	if o.Contracts {
-		names := []string{"reverter", "forwarder", "suicider", "issuer", "fwdrevert"}
+		names := []string{"reverter", "forwarder", "suicider", "issuer", "fwdrevert", "killrevert", "store"}
 		for _, name := range names {
 			ad := addrOf("contract-" + name)
 			s.Contracts[name] = ad
 			s.Universe[ad] = struct{}{}
 		}
-		codes := map[string][]byte{"reverter": CodeReverter, "forwarder": CodeForwarder, "suicider": CodeSuicider, "issuer": CodeIssuer, "fwdrevert": CodeForwardThenRevert}
+		codes := map[string][]byte{"reverter": CodeReverter, "forwarder": CodeForwarder, "suicider": CodeSuicider, "issuer": CodeIssuer, "fwdrevert": CodeForwardThenRevert, "killrevert": CodeCallArgThenRevert, "store": CodeStore}
 		for _, name := range names {
 			ga := world.GenesisAccount{Addr: s.Contracts[name], Code: codes[name], Balance: big.NewInt(0), Tokens: map[common.Address]*big.Int{}}
 			if name == "suicider" {
@@ -260,14 +273,25 @@ type Holdings struct {
 	Native map[common.Address]*big.Int
 	Tokens map[common.Address]map[common.Address]*big.Int
 	Nonces map[common.Address]uint64
+	Code   map[common.Address]bool // the address has code
+	Slots  [StoreSlots]string      // storage slots 0..StoreSlots-1 of the "store" contract (hex)
 }
+
+// StoreSlots is the number of storage slots of the "store" contract the generator writes.
+const StoreSlots = 4
 
 // Snapshot reads the committed holdings of every address in the universe now.
 func (s *Sim) Snapshot() *Holdings {
 	st := s.Committed()
-	h := &Holdings{Native: map[common.Address]*big.Int{}, Tokens: map[common.Address]map[common.Address]*big.Int{}, Nonces: map[common.Address]uint64{}}
+	h := &Holdings{Native: map[common.Address]*big.Int{}, Tokens: map[common.Address]map[common.Address]*big.Int{}, Nonces: map[common.Address]uint64{}, Code: map[common.Address]bool{}}
 	for a := range s.Universe {
 		h.Native[a] = new(big.Int).Set(st.GetBalance(a))
+		h.Code[a] = st.GetCodeSize(a) > 0
+		if c, ok := s.Contracts["store"]; ok && c == a {
+			for i := 0; i < StoreSlots; i++ {
+				h.Slots[i] = fmt.Sprintf("%x", st.GetState(a, common.BigToHash(big.NewInt(int64(i)))))
+			}
+		}
 		h.Nonces[a] = st.GetNonce(a)
 		m := map[common.Address]*big.Int{}
 		for _, tv := range st.GetTokenBalances(a) {
@@ -302,6 +326,8 @@ type Tx struct {
 	IssueTok  common.Address // issuer call: token and amount minted if the call succeeds
 	IssueAmt  *big.Int
 	SuicideTo *common.Address
+	Underpaid bool   // a confidential spend that pays less than the required fee
+	InnerTo   string // forwarding calls: what the inner call reaches ("suicider", "reverter", ... or "" for a plain address)
 	KeyImages []lktypes.Key
 }
 
@@ -347,7 +373,52 @@ func (s *Sim) GenAccountTx(t *rapid.T, kinds []string) *Tx {
 		delete(s.forceCreate, from.Addr)
 		kind, forcedCode = "create", c
 	}
+	if s.forcePay {
+		s.forcePay = false
+		if forcedCode == nil && rapid.IntRange(0, 2).Draw(t, "payafterkill") != 0 {
+			kind = "pay-suicider"
+		}
+	}
 	switch kind {
+	case "pay-suicider":
+		// a payment without arguments to the self-destructing contract: it stays alive and keeps the value (if it is dead the address is a plain one)
+		c, ok := s.Contracts["suicider"]
+		if !ok || s.blkSelfKill {
+			return nil
+		}
+		s.blkPaid = true
+		amt := s.amountUpTo(t, new(big.Int).Div(bal, big.NewInt(8)), "payval")
+		gas := types.CalNewAmountGas(amt, types.EverContractLiankeFee) + 100000
+		return &Tx{Tx: world.RawTx(from, nonce, &c, amt, gas, world.GasPrice, nil), Kind: kind, From: from.Addr, Desc: fmt.Sprintf("pay-suicider %v nonce %d", amt, nonce)}
+	case "call-store":
+		// writes one of a few storage slots: a new value, the same value again, or zero (the slot is deleted)
+		c, ok := s.Contracts["store"]
+		if !ok {
+			return nil
+		}
+		slot := rapid.IntRange(0, StoreSlots-1).Draw(t, "slot")
+		val := rapid.SampledFrom([]int64{0, 0, 1, 2, 0x33, 1 << 40}).Draw(t, "slotval")
+		data := append(common.LeftPadBytes(big.NewInt(int64(slot)).Bytes(), 32), common.LeftPadBytes(big.NewInt(val).Bytes(), 32)...)
+		return &Tx{Tx: world.RawTx(from, nonce, &c, big.NewInt(0), 800000, world.GasPrice, data), Kind: kind, From: from.Addr, Desc: fmt.Sprintf("call-store slot %d = %d nonce %d", slot, val, nonce)}
+	case "call-killrevert":
+		// a contract makes the self-destructing contract destroy itself in favour of an heir and then reverts: nothing but the fee may move
+		c, ok := s.Contracts["killrevert"]
+		if !ok {
+			return nil
+		}
+		victim := s.Contracts["suicider"]
+		heir := rapid.SampledFrom(append(s.Recipients(), victim)).Draw(t, "heir")
+		amt := s.amountUpTo(t, new(big.Int).Div(bal, big.NewInt(4)), "cval")
+		gas := uint64(rapid.IntRange(600000, 3000000).Draw(t, "gas"))
+		if g := types.CalNewAmountGas(amt, types.EverContractLiankeFee) + 100000; gas < g {
+			gas = g
+		}
+		if rapid.IntRange(0, 4).Draw(t, "tightgas") == 0 {
+			gas = types.CalNewAmountGas(amt, types.EverContractLiankeFee) + uint64(rapid.SampledFrom([]int{0, 1, 1000, 21000, 30000, 60000}).Draw(t, "gasabove"))
+		}
+		data := append(common.LeftPadBytes(victim.Bytes(), 32), common.LeftPadBytes(heir.Bytes(), 32)...)
+		s.forcePay = true
+		return &Tx{Tx: world.RawTx(from, nonce, &c, amt, gas, world.GasPrice, data), Kind: kind, From: from.Addr, InnerTo: "suicider", Desc: fmt.Sprintf("%s value %v heir %s gas %d nonce %d", kind, amt, heir.Hex()[:8], gas, nonce)}
 	case "wasm-call":
 		if s.WasmCodes == nil {
 			return nil
@@ -398,7 +469,28 @@ func (s *Sim) GenAccountTx(t *rapid.T, kinds []string) *Tx {
 		}
 		maxv := new(big.Int).Div(bal, big.NewInt(4))
 		amt := s.amountUpTo(t, maxv, "cval")
-		to := rapid.SampledFrom(s.Recipients()).Draw(t, "fwdto")
+		targets := s.Recipients()
+		switch kind {
+		case "call-fwdrevert":
+			// the inner call may also reach a contract; whatever the inner frame did, the enclosing frame reverts, so nothing may change
+			for _, n := range []string{"suicider", "reverter", "forwarder", "issuer"} {
+				targets = append(targets, s.Contracts[n])
+			}
+		case "call-forward":
+			// an inner revert or a second forwarding leaves the value at a known address; the self-destructing contract, called
+			// without arguments, keeps what it is paid (unless a self-destruct in its own favour shares the block: see blkPaid)
+			names := []string{"reverter", "forwarder", "fwdrevert"}
+			if !s.blkKill {
+				names = append(names, "suicider")
+			}
+			for _, n := range names {
+				targets = append(targets, s.Contracts[n])
+			}
+		}
+		to := rapid.SampledFrom(targets).Draw(t, "fwdto")
+		if kind == "call-forward" && to == s.Contracts["suicider"] {
+			s.blkPaid, s.blkFwdPaid = true, true
+		}
 		data := common.LeftPadBytes(to.Bytes(), 32)
 		gas := uint64(rapid.IntRange(600000, 3000000).Draw(t, "gas"))
 		if g := types.CalNewAmountGas(amt, types.EverContractLiankeFee) + 100000; gas < g {
@@ -409,7 +501,13 @@ func (s *Sim) GenAccountTx(t *rapid.T, kinds []string) *Tx {
 			// necessarily both, or only just
 			gas = types.CalNewAmountGas(amt, types.EverContractLiankeFee) + uint64(rapid.SampledFrom([]int{0, 1, 1000, 20999, 21000, 21001, 22000, 30000, 60000}).Draw(t, "gasabove"))
 		}
-		return &Tx{Tx: world.RawTx(from, nonce, &c, amt, gas, world.GasPrice, data), Kind: kind, From: from.Addr, Desc: fmt.Sprintf("%s value %v to %s gas %d nonce %d", kind, amt, to.Hex()[:8], gas, nonce)}
+		inner := ""
+		for n, a := range s.Contracts {
+			if a == to {
+				inner = n
+			}
+		}
+		return &Tx{Tx: world.RawTx(from, nonce, &c, amt, gas, world.GasPrice, data), Kind: kind, From: from.Addr, InnerTo: inner, Desc: fmt.Sprintf("%s value %v to %s %s gas %d nonce %d", kind, amt, to.Hex()[:8], inner, gas, nonce)}
 	case "call-suicide":
 		c, ok := s.Contracts["suicider"]
 		if !ok {
@@ -417,6 +515,17 @@ func (s *Sim) GenAccountTx(t *rapid.T, kinds []string) *Tx {
 		}
 		targets := append(s.Recipients(), c)
 		to := rapid.SampledFrom(targets).Draw(t, "suicideto")
+		if s.blkFwdPaid {
+			return nil
+		}
+		s.blkKill = true
+		if to == c {
+			if s.blkPaid {
+				to = s.Sinks()[0]
+			} else {
+				s.blkSelfKill = true
+			}
+		}
 		data := common.LeftPadBytes(to.Bytes(), 32)
 		return &Tx{Tx: world.RawTx(from, nonce, &c, big.NewInt(0), 800000, world.GasPrice, data), Kind: kind, From: from.Addr, SuicideTo: &to, Desc: fmt.Sprintf("suicide to %s nonce %d", to.Hex()[:8], nonce)}
 	case "call-issue":
@@ -553,6 +662,22 @@ func (s *Sim) GenUSpend(t *rapid.T, inflate *big.Int) *Tx {
 	shape := rapid.SampledFrom([]string{"u2u", "u2u", "u2a", "u2mix"}).Draw(t, "ushape")
 	var dests []types.DestEntry
 	fee := new(big.Int).Set(UTXOFee)
+	// an underpaying spend: short by the whole confidential part, by the whole account part, or by one gas-price step
+	short := new(big.Int)
+	if s.UnderpayRate > 0 && rapid.IntRange(0, s.UnderpayRate-1).Draw(t, "underpay") == 0 {
+		switch rapid.IntRange(0, 2).Draw(t, "shortby") {
+		case 0:
+			short.Set(UTXOFee)
+		case 1:
+			short.Set(world.GasPrice)
+		default:
+			short.Div(UTXOFee, big.NewInt(2))
+		}
+		shape = rapid.SampledFrom([]string{"u2u", "u2a", "u2mix", "u2mix"}).Draw(t, "ushapeunder")
+		if shape == "u2u" {
+			fee = roundUnit(new(big.Int).Sub(fee, new(big.Int).Div(UTXOFee, big.NewInt(2))))
+		}
+	}
 	rest := new(big.Int).Sub(total, fee)
 	if rest.Sign() <= 0 {
 		return nil
@@ -575,7 +700,12 @@ func (s *Sim) GenUSpend(t *rapid.T, inflate *big.Int) *Tx {
 		to := rapid.SampledFrom(s.Recipients()).Draw(t, "uto")
 		amt := roundUnit(new(big.Int).Div(new(big.Int).Mul(rest, big.NewInt(9)), big.NewInt(10)))
 		need := new(big.Int).Mul(new(big.Int).SetUint64(types.CalNewAmountGas(amt, types.EverLiankeFee)), world.GasPrice)
-		if rapid.IntRange(0, 3).Draw(t, "tightfee") == 0 || new(big.Int).Sub(total, amt).Cmp(need) < 0 {
+		if short.Sign() > 0 {
+			if short.Cmp(need) >= 0 {
+				short.Set(world.GasPrice)
+			}
+			amt = new(big.Int).Sub(total, new(big.Int).Sub(need, short))
+		} else if rapid.IntRange(0, 3).Draw(t, "tightfee") == 0 || new(big.Int).Sub(total, amt).Cmp(need) < 0 {
 			amt = new(big.Int).Sub(total, need) // exactly the required fee
 		} else {
 			// any larger fee that is a multiple of the gas price
@@ -592,6 +722,7 @@ func (s *Sim) GenUSpend(t *rapid.T, inflate *big.Int) *Tx {
 		a := roundUnit(new(big.Int).Div(rest, big.NewInt(3)))
 		need := new(big.Int).Mul(new(big.Int).SetUint64(types.CalNewAmountGas(a, types.EverLiankeFee)), world.GasPrice)
 		need.Add(need, UTXOFee)
+		need.Sub(need, short)
 		u := new(big.Int).Sub(new(big.Int).Sub(total, a), need)
 		if a.Cmp(world.UTXOUnit) < 0 || u.Cmp(world.UTXOUnit) < 0 {
 			return nil
@@ -603,7 +734,11 @@ func (s *Sim) GenUSpend(t *rapid.T, inflate *big.Int) *Tx {
 	if err != nil {
 		return nil
 	}
-	return &Tx{Tx: tx, Kind: shape, KeyImages: kis, Desc: fmt.Sprintf("%s %d in (ring %d) total %v -> %d dests", shape, len(srcs), len(srcs[0].Ring), total, len(dests))}
+	under := ""
+	if short.Sign() > 0 {
+		under = fmt.Sprintf(" UNDERPAYING by %v", short)
+	}
+	return &Tx{Tx: tx, Kind: shape, KeyImages: kis, Underpaid: short.Sign() > 0, Desc: fmt.Sprintf("%s %d in (ring %d) total %v -> %d dests%s", shape, len(srcs), len(srcs[0].Ring), total, len(dests), under)}
 }
 
 // ------------------------------------------------------------------ committing and bookkeeping
@@ -620,6 +755,8 @@ func (s *Sim) Commit(block *types.Block, gen map[common.Hash]*Tx) error {
 
 // AfterCommit is the bookkeeping half of Commit (for callers that commit through another path).
 func (s *Sim) AfterCommit(block *types.Block, gen map[common.Hash]*Tx, pre *Holdings) error {
+	s.blkPaid, s.blkFwdPaid, s.blkKill, s.blkSelfKill, s.forcePay = false, false, false, false, false
+	killed := false // the self-destructing contract has destroyed itself in an earlier transaction of this block
 	receipts := s.W.BlockStore.GetReceipts(block.Height)
 	for i, tx := range block.Data.Txs {
 		ok := receipts != nil && i < len(*receipts) && (*receipts)[i].Status == types.ReceiptStatusSuccessful
@@ -630,7 +767,19 @@ func (s *Sim) AfterCommit(block *types.Block, gen map[common.Hash]*Tx, pre *Hold
 				}
 				s.Issued[g.IssueTok].Add(s.Issued[g.IssueTok], g.IssueAmt)
 			}
-			if g.SuicideTo != nil && ok && *g.SuicideTo == s.Contracts["suicider"] && pre != nil {
+			if g.Kind == "pay-suicider" && ok && killed {
+				// the state is finalised once per block, so the self-destructed object lives on (marked, with its code) until the
+				// block ends and is deleted then, together with whatever later transactions of the block paid it
+				v := g.Tx.(*types.Transaction).Value()
+				if v.Sign() > 0 {
+					s.addDestroyed(common.EmptyAddress, v)
+					s.BurntAfterKill = append(s.BurntAfterKill, fmt.Sprintf("block %d: tx %d pays %v to the contract that self-destructed earlier in the block", block.Height, i, v))
+				}
+			}
+			if g.SuicideTo != nil && ok && pre != nil && pre.Code[s.Contracts["suicider"]] {
+				killed = true
+			}
+			if g.SuicideTo != nil && ok && *g.SuicideTo == s.Contracts["suicider"] && pre != nil && pre.Code[s.Contracts["suicider"]] {
 				// self-destruct in favour of itself: the holdings it had when the tx ran are destroyed by design.
 				// The contract cannot receive anything earlier in the same block from the generator's repertoire
 				// except by another suicide/forward; use the pre-block state plus what this block credited so far.
